@@ -176,6 +176,16 @@ def build(sc, seed):
     shape = (p + fi,) + ((T,) if T > 1 else ())
     if warm != "none":
         w = np.zeros(shape)
+        if warm == "infeasible":
+            k = min(p, 5)
+            idx = rng.choice(p, k, replace=False)
+            vals = rng.standard_normal((k,) + shape[1:]) * 0.5
+            if pen["kind"] == "IndicatorBox":
+                vals = np.abs(vals) + pen["alpha"] * (1 + (np.arange(k) % 2))   # above the box
+                vals[0] = -0.3
+            else:
+                vals = -np.abs(vals) - 0.1 * (np.arange(k).reshape((k,) + (1,) * (vals.ndim - 1)) % 2)
+            w[idx] = vals
         if warm in ("random", "bigsupp"):
             k = min(p, 3 if warm == "random" else min(p, 2 * (p0 if p0 < p else 2) + 3))
             idx = rng.choice(p, k, replace=False)
